@@ -102,6 +102,12 @@ pub fn subsets(items: &[String], max_all: usize) -> Vec<BTreeSet<String>> {
                 out.push(items[start..start + size].iter().cloned().collect());
             }
         }
+        // every pair (2-of-n spends, two leaves of a wide tree)
+        for i in 0..n {
+            for j in i + 1..n {
+                out.push([items[i].clone(), items[j].clone()].into_iter().collect());
+            }
+        }
         out.sort();
         out.dedup();
     }
@@ -168,7 +174,18 @@ pub fn sign_ecdsa(k: &KeyInfo, digest: [u8; 32], hashtype: u8) -> Vec<u8> {
     if let Some(v) = SIGCACHE.with(|c| c.borrow().get(&ck).cloned()) {
         return v;
     }
-    let sig = SECP256K1.sign_ecdsa(&Message::from_digest(digest), &k.sk);
+    // the largest standard signature: 33-byte R and 32-byte low S (71 bytes DER + sighash byte), found
+    // by a deterministic nonce-data counter, so that measured sizes are as close to the static
+    // worst case (73) as a standard signature gets
+    let msg = Message::from_digest(digest);
+    let mut sig = SECP256K1.sign_ecdsa(&msg, &k.sk);
+    let mut ctr = 0u32;
+    while sig.serialize_der().len() != 71 && ctr < 64 {
+        let mut nd = [0u8; 32];
+        nd[..4].copy_from_slice(&ctr.to_le_bytes());
+        sig = SECP256K1.sign_ecdsa_with_noncedata(&msg, &k.sk, &nd);
+        ctr += 1;
+    }
     let mut v = sig.serialize_der().to_vec();
     v.push(hashtype);
     SIGCACHE.with(|c| {
